@@ -97,7 +97,9 @@ type msg struct{ area, phone, code string }
 type fakeSMS struct{ msgs []msg }
 
 func (f *fakeSMS) SendCode(area, phone, code string) error {
-	f.msgs = append(f.msgs, msg{area, phone, code})
+	// a gateway renders the text into its message at delivery time: keep copies, not the
+	// caller's strings
+	f.msgs = append(f.msgs, msg{strings.Clone(area), strings.Clone(phone), strings.Clone(code)})
 	return nil
 }
 
@@ -178,7 +180,9 @@ type pstate struct {
 }
 
 type world struct {
-	longBursts      bool // attemptsCase: some bursts of hundreds / tens of thousands of wrong attempts
+	nilCache        bool
+	mk              func() vcode.VCLogic // builds another logic instance the way the first one was built
+	longBursts      bool                 // attemptsCase: some bursts of hundreds / tens of thousands of wrong attempts
 	k               *engine.Case
 	r               *rand.Rand
 	cf              conf
@@ -197,7 +201,18 @@ func newWorld(k *engine.Case, cf conf, pairs []pair) *world {
 	w := &world{k: k, r: k.R, cf: cf, sms: &fakeSMS{}, pairs: pairs, st: make([]pstate, len(pairs))}
 	size := int64(len(pairs) + k.R.Intn(3))
 	cfg := cf.config(size)
-	w.lg = vcode.NewSimpleLogic(cfg, w.sms, vcode.NewSimpleCache(size))
+	// the third argument: a cache of the caller's, or nil (the module then makes its own)
+	w.nilCache = k.R.Intn(3) == 0
+	w.mk = func() vcode.VCLogic {
+		if w.nilCache {
+			return vcode.NewSimpleLogic(cfg, w.sms, nil)
+		}
+		return vcode.NewSimpleLogic(cfg, w.sms, vcode.NewSimpleCache(size))
+	}
+	w.lg = w.mk()
+	if w.nilCache {
+		k.Count("cfg_nil_cache_argument", 1)
+	}
 	hdr := "config: " + cf.String() + fmt.Sprintf(" CacheSize=%d", size)
 	k.Logf("%s", hdr)
 	w.prog = append(w.prog, hdr)
@@ -254,6 +269,24 @@ func report(k *engine.Case, class, format string, a ...any) {
 
 // finish registers the case with the distinct / non-trivial accounting.
 func (w *world) finish() {
+	// logic instances are independent: a second instance built the same way has been sent
+	// nothing, so it must not accept the codes the first one sent
+	if !w.dead && w.mk != nil {
+		other := w.mk()
+		for i := range w.st {
+			if !w.st[i].sent {
+				continue
+			}
+			p := w.pairs[i]
+			err := other.VerifySMSCode(p.area, p.phone, w.st[i].code, w.st[i].hash)
+			w.k.Evals(1)
+			w.k.Count("other_instance_verifications", 1)
+			if err == nil {
+				w.fail("other-instance-accepted", "a second logic instance (built like the first, nothing sent through it) accepted the code %q / hash sent to p%d=%s by the first instance; %s", w.st[i].code, i, p, w.cf)
+				break
+			}
+		}
+	}
 	if w.accepted > 0 && w.judgedAfterSend > 0 {
 		w.k.Nontrivial()
 		w.k.Distinct(engine.HashStr(strings.Join(w.prog, "\n")))
